@@ -203,6 +203,18 @@ func (x *Exec) callByContract(st *State, fr *Frame, callee *ssa.Function, fc *Fu
 			}
 		}
 	}
+	// renamed parameters / captured variables: the contract's old names denote them too
+	if callee != nil {
+		for old, al := range fc.LocalAlias {
+			if _, bound := env.vars[old]; !bound {
+				if nn := localByOrdinal(callee, al); nn != "" {
+					if v, ok := env.vars[nn]; ok {
+						env.vars[old] = v
+					}
+				}
+			}
+		}
+	}
 	// implicit precondition: pointer params non-nil
 	if callee != nil && !fc.Extern {
 		for i, p := range callee.Params {
